@@ -458,6 +458,8 @@ pub fn run_cfgs_bound(cfgs: Vec<SrvCfg>, depth: usize, max_states: usize, replay
     for cfg in cfgs {
         let name = cfg.name;
         let n_actions = cfg.alphabet.len();
+        // the priming steps are judged like every other step
+        let primed = crate::srv::replay_with_prime(cfg.clone(), &[0]);
         let init = SrvState::new(cfg);
         let depth = match name {
             "c15-writes-only" => depth + 4,
@@ -467,6 +469,7 @@ pub fn run_cfgs_bound(cfgs: Vec<SrvCfg>, depth: usize, max_states: usize, replay
         };
         let bfs = Bfs { max_depth: depth, max_states, threads: super::cores(), collect_paths: replay_budget > 0 };
         let mut part = Partial::default();
+        part.violations.extend(primed.violations);
         let stats = bfs.run(vec![init], &mut part);
         if replay_budget > 0 {
             if let Some(cfg) = find_cfg(name) {
